@@ -103,6 +103,15 @@ CLAIMS["C14"] = {
     "technique": "symbolic path summaries of sibling step functions under --features utf16",
 }
 
+
+CLAIMS["C16"] = {
+    "text": "Decides the structural conditions behind the accessor identities: group names are stored at the index flowing from the group's id "
+            "(not emission order), both duplicate-name code paths test participation of a capture, both executors build `captures` by one "
+            "in-order pass over the whole group store, and capture groups are only created by the parser (NAMES).",
+    "note": COMMON_NOTE + "Not decided: the one-line identities group(0)/groups() length, which the suite covers.",
+    "technique": "MIR value-flow (index derives from CaptureGroup.id), call-site inventory and sibling cross-check of the two duplicate-name lookups",
+}
+
 PENDING = "rules for this property are designed (DESIGN.md §3/§4) but not built yet; nothing is claimed until they exist"
 
 NOT_APPLICABLE = {("C%02d" % i): PENDING for i in range(1, 21)}
